@@ -36,7 +36,7 @@ def o_transpose(inp):
     rel = [tuple(m) for m in inp["rel"]]
     by = inp["by"]
     bar_sig = inp.get("bar")
-    s = P.seq_of_rel(rel)
+    s = P.seq_in_state(rel, inp.get("state", "rel"))
     fails = []
     target = s
     b = None
@@ -104,6 +104,9 @@ def generate(ctx):
     for i in range(ctx.n(400, 12000)):
         pitches = rng.choice([[21, 22, 30], [108, 107, 100], [60, 64, 67], list(range(21, 109, 7)), [21, 108]])
         rel, notes = G.gen_wf_rel(rng, pitches=pitches, channels=(0,), max_tick=90, max_dur=30)
+        if rng.random() < 0.25:
+            rel = G.unconsolidate(rng, rel)
+            ctx.count("rel:unconsolidated")
         by = rng.choice([0, 1, -1, 12, -12, 24, 7, -5, 87, -87, 88, 100, -100, 200, -200, rng.randint(-200, 200)])
         bar = None
         if rng.random() < 0.3:
@@ -114,6 +117,9 @@ def generate(ctx):
         if by % 12 == 0:
             ctx.count("multiple-of-12")
         ctx.check("transpose", {"rel": rel, "by": by, "bar": bar})
+        if i % 4 == 0:
+            ctx.count("wrapper-states")
+            ctx.check("transpose", {"rel": rel, "by": by, "bar": bar, "state": rng.choice(P.SEQ_STATES[1:])})
         ctx.corr("transposeRel", P.op_transposeRel(by, rel))
         ctx.corr("seq", P.op_seq(("rel", rel), [("transpose", by), ("readAbs",), ("readRel",)]))
         ctx.sample({"rel": rel[:6], "by": by, "bar": bar})
